@@ -80,4 +80,54 @@ theorem walk_not_perm_invariant_with_colliding_names : ¬WalkPermInvariant := by
 example : forEachService (mk [db, x, y]) ["db"] .dependents = .ok ["db"] := by decide
 example : forEachService (mk [db, y, x]) ["db"] .dependents = .noSuchService := by decide
 
+/-! ## the callback order of `ForEachService` on a dependency cycle (round 5)
+
+"every dependency is called before the service that needs it" holds on acyclic graphs
+(`Props/C15.lean forEach_dependencies_first`); at full strength — for every project — it is false: on the cycle
+`a → b → a`, `ForEachService(["a"])` marks `a`, walks to `b`, finds `a` already marked and calls `fn(b)` then `fn(a)`,
+so `b`'s dependency `a` comes after it.  The loader rejects dependency cycles (`graph.CheckCycle`), a hand-built
+project can have one; the real code behaves as the model (corpus `foreach-cycle.json`, passing: the full-strength
+clause of `ForEachSpec` excuses exactly the edges that lie on a cycle). -/
+
+def ca : String × Svc := ("a", svc "a" [("b", ⟨true, "service_started"⟩)])
+def cb : String × Svc := ("b", svc "b" [("a", ⟨true, "service_started"⟩)])
+
+def DepsFirst : Prop :=
+  ∀ (p : Proj) (names : List String) (opts : List Policy) (seen calls : List String),
+    Partition p → Named p → forEachCalls p names opts = .ok seen calls →
+    ∀ x ∈ calls, ∀ y, Edge p.services (policyOf opts) x y → before calls y x = true
+
+theorem deps_first_fails_on_a_cycle : ¬DepsFirst := by
+  intro h
+  have := h (mk [ca, cb]) ["a"] [] ["b", "a"] ["b", "a"] (by decide) (by decide) (by decide) "b" (by decide) "a"
+    ⟨cb.2, by decide, by decide, by decide⟩
+  revert this
+  decide
+
+example : forEachCalls (mk [ca, cb]) ["a"] [] = .ok ["b", "a"] ["b", "a"] := by decide
+
+/-! ## `Services.GetProfiles` is a set, not a list (round 5)
+
+The profiles are collected in a Go map and listed by ranging over it: the returned slice is in map order, so two calls
+on the same `Services` value return the same profiles in different orders (observed on the real code by `c15each`:
+`[p q r s t]` then `[q r s t p]`; counted in the evidence as `getprofiles-order-varies`).  This is a *reviewed* order-leak
+site of property C02 (`Spec/Determinism.lean`: public helper, reached by no load and no rendering, callers get an
+unordered list), not one of the operations of C15; the model therefore compares the sorted view `getProfiles`
+(`Props/C15.lean getProfiles_exact`, `getProfiles_perm`).  The witness shows that the raw list is not a function of the map. -/
+
+def GetProfilesPermInvariant : Prop :=
+  ∀ (svcs svcs' : AL Svc), (keys svcs).Nodup → svcs.Perm svcs' → getProfilesPre svcs = getProfilesPre svcs'
+
+def pa : String × Svc := ("a", { svc "a" [] with profiles := ["p", "q"] })
+def pb : String × Svc := ("b", { svc "b" [] with profiles := ["r", "p"] })
+
+theorem getProfiles_raw_order_dependent : ¬GetProfilesPermInvariant := by
+  intro h
+  have := h [pa, pb] [pb, pa] (by decide) (List.Perm.swap _ _ _)
+  revert this
+  decide
+
+example : getProfilesPre [pa, pb] = ["p", "q", "r"] ∧ getProfilesPre [pb, pa] = ["r", "p", "q"] := by decide
+example : getProfiles [pa, pb] = ["p", "q", "r"] ∧ getProfiles [pb, pa] = ["p", "q", "r"] := by decide
+
 end CV.Sel.Neg
